@@ -116,6 +116,24 @@ def neutraliser(ctx: Ctx, I: Interp) -> Any:
                   f"the serialised dict has keys {sorted(set(keys) - set(params))} the constructor does not accept / lacks {sorted(set(params) - set(keys))}: "
                   f"HTMLTextDocument cannot rebuild an equal dependency", witness="HTMLTextDocument(str(dep.serialize_to_script_json()))")
         s = l.run.__dict__["s"]
+        hv = d.items.get("head")
+        if hv is not None:
+            fr = hv.frags[0] if isinstance(hv, SStr) and len(hv.frags) == 1 and hv.frags[0].kind == "OP" and isinstance(hv.frags[0].a, tuple) and hv.frags[0].a[0] == "call" else None
+            q = fr.a[1] if fr is not None else ""
+            rc = fr.b.get("recv") if fr is not None and isinstance(fr.b, dict) else None
+
+            def _is_head(x: Any) -> bool:
+                if isinstance(x, SObj) and (x.meta.get("attr_of") or (None, None))[0] is s and x.meta["attr_of"][1] == "head":
+                    return True
+                return isinstance(x, SNew) and x.cls_name == "TagList" and len(x.args) == 1 and not x.star and _is_head(x.args[0])
+            if q.split(".")[-1] in ("__str__", "_repr_html_", "__repr__", "_render_tag_or_taglist") and _is_head(rc):
+                ctx.fail("C13.keys", SER, f"head: {q}", f"the head markup is taken with {q}: under html_dependency_render_mode == 'json' (the mode in which serialised dependencies "
+                         f"are written) str() appends the serialised form of every dependency inside the head, so the recovered head is not the identical markup",
+                         witness="HTMLDependency('a', '1', head=TagList(tags.title('t'), HTMLDependency('b', '1'))) serialised in json mode")
+            else:
+                ctx.require(q.split(".")[-1] == "get_html_string" and _is_head(rc) and not fr.b.get("args") and not fr.b.get("kwargs"),
+                            f"serialize_to_script_json: head markup is {short(hv)}")
+                ctx.ok("C13.keys", "field `head` is serialised as the plain markup of self.head (get_html_string, no dependency appendix)")
         for k, val in d.items.items():
             if k in ("version", "head"):
                 continue
@@ -209,6 +227,19 @@ def extraction(ctx: Ctx, I: Interp, tag: SNew) -> None:
                      "a serialisation is only compared with one remembered string (the previous one), not with all earlier ones: identical copies separated by another "
                      "dependency are reconstructed twice", witness="text with serialised a, b, a")
             continue
+        if not mem:
+            objmem = [(a, v) for a, v in l.atoms if isinstance(a, tuple) and a[0] == "in" and isinstance((l.run.atom_info.get(a) or {}).get("item"), SNew)
+                      and (l.run.atom_info.get(a) or {}).get("item").cls_name == "HTMLDependency"]
+            dci = ctx.prog.get_class("HTMLDependency", ctx.prog.modules[CORE])
+            if objmem and dci is not None:
+                has_eq = ctx.prog.find_method(dci, "__eq__") is not None
+                ctx.fail("C13.dedup", EXT, "duplicate test by membership of the rebuilt object",
+                         "the rebuilt HTMLDependency is looked up in the result list instead of its text among the texts seen: " +
+                         ("two different serialisations of equal dependencies (for instance written with different indent) are merged into one, although each "
+                          "distinct serialisation is to be recovered once" if has_eq else
+                          "HTMLDependency defines no __eq__, so two objects rebuilt from the same text are never equal and every repeat is reconstructed again"),
+                         witness="text with serialize_to_script_json(indent=None) and serialize_to_script_json(indent=2) of one dependency")
+                continue
         ctx.require(len(mem) == 1, "extraction loop: no membership test of the serialisation in a seen-collection")
         cont = l.run.atom_info[mem[0][0]]["container"]
         adds = [e for e in eff if e.kind == "mutcall" and e.target is cont and e.key in ("add", "append")]
@@ -640,5 +671,8 @@ def check(ctx: Ctx) -> None:
     tag = neutraliser(ctx, I)
     extraction(ctx, I, tag)
     text_render(ctx, I)
+    # what a text document holds is its own: no list shared through the class by every HTMLTextDocument
+    from .c18 import class_level_state
+    class_level_state(ctx, "C13.extract", only={"HTMLTextDocument"})
     instance_extract(ctx, I)
     json_mode(ctx, I)
